@@ -15,7 +15,8 @@ From E57 Require Import Spec.PageReadSpec.
 From E57 Require Import Model.MetaFile Model.XmlTree Model.XmlParse Model.XmlGen Model.XmlExtract Model.ReaderFull
   Spec.MetaTree Spec.XgWriterOk.
 From E57 Require Import Proofs.CrashLog Proofs.CrashOpen Proofs.CrashTrace Proofs.CrashMain Proofs.CrashBridge
-  Proofs.CrashXml.
+  Proofs.CrashXml Proofs.CrashApiSteps Proofs.CrashApi Proofs.CrashApiXml.
+From E57 Require Import Model.WriterApi Model.WriterFull.
 
 (** the completed file is the replay of the whole write sequence *)
 Theorem C15_replay : forall (A : Type) (p : wprog A), final_image p = apply_writes (trace_of p).
@@ -141,3 +142,64 @@ Theorem C15_reader_new_accepts_only_complete :
   extract_all pf64 pf32 fdiv (tree_of m) = Ok m'.
 Proof. exact reader_new_accepts_only_complete. Qed.
 Print Assumptions C15_reader_new_accepts_only_complete.
+
+(** * The same at the level of public API calls (Model/WriterApi.v, Model/WriterFull.v)
+
+    [writer_run fmt64 fmt32 version calls] is the page-layer program of ANY sequence of API calls
+    (calls that fail, abandoned sub-writers, calls after errors, orders Rust would not compile
+    included); its trace includes Drop. *)
+
+(** every image from before the final header write of a successful top-level Finalize - and every
+    image at all when there is none - is rejected or yields the empty XML *)
+Theorem C15_api_before_finalize : forall fmt64 fmt32 version (calls : list wcall) (n cut : nat),
+  let tr := trace_of (writer_run fmt64 fmt32 version calls) in
+  (n + 2 < length tr)%nat ->
+  match open_result (crash_image tr n cut) with
+  | Ok (_, _, x) => x = []
+  | Err _ => True
+  | Panic => False
+  end.
+Proof. exact writer_before_finalize. Qed.
+Print Assumptions C15_api_before_finalize.
+
+(** a writer dropped before a successful top-level Finalize (whatever calls were made, sub-writers
+    finalized or abandoned): every image, the final device content included *)
+Theorem C15_api_unfinalized : forall fmt64 fmt32 version (calls : list wcall) stf rs (n cut : nat),
+  snd (wrun (writer_run fmt64 fmt32 version calls) pw_fresh) = Ok (stf, rs) -> ws_finalized stf = false ->
+  match open_result (crash_image (trace_of (writer_run fmt64 fmt32 version calls)) n cut) with
+  | Ok (_, _, x) => x = []
+  | Err _ => True
+  | Panic => False
+  end.
+Proof. exact writer_unfinalized. Qed.
+Print Assumptions C15_api_unfinalized.
+
+(** a call sequence whose last call is the top-level Finalize and returned CrOk (the calls before
+    it are arbitrary and may have failed): [xml] is the XML of the final metadata *)
+Theorem C15_api_accepted_is_complete : forall fmt64 fmt32 version (cs : list wcall) stf rs (xml : list N),
+  let p := writer_run fmt64 fmt32 version (cs ++ [Finalize]) in
+  snd (wrun p pw_fresh) = Ok (stf, rs ++ [CrOk]) ->
+  gen_root (fill_meta fmt64 fmt32 (ws_meta stf)) = Ok xml ->
+  xml <> [] -> len (final_image p) < 2 ^ 64 -> forall n cut : nat,
+  match open_result (crash_image (trace_of p) n cut) with
+  | Panic => False
+  | Err _ => True
+  | Ok (_, _, xr) =>
+      (exists k, k <= len xml /\ xr = take k xml /\ (k = len xml \/ k = 0 \/ k + 256 <= len xml)) /\
+      (xr = xml -> crash_image (trace_of p) n cut = final_image p)
+  end.
+Proof. exact writer_accepted_is_complete. Qed.
+Print Assumptions C15_api_accepted_is_complete.
+
+(** with the XML layer: an image the full reader accepts is the completed file *)
+Theorem C15_api_accepted_is_complete_xml : forall fmt64 fmt32 version (cs : list wcall) stf rs,
+  let p := writer_run fmt64 fmt32 version (cs ++ [Finalize]) in
+  let m := fill_meta fmt64 fmt32 (ws_meta stf) in
+  snd (wrun p pw_fresh) = Ok (stf, rs ++ [CrOk]) ->
+  writer_meta_ok m = true -> meta_xml_ok m = true ->
+  len (final_image p) < 2 ^ 64 ->
+  forall (n cut : nat) s h x d',
+  open_result (crash_image (trace_of p) n cut) = Ok (s, h, x) -> xml_parse x = ParseOk d' ->
+  gen_root m = Ok x /\ d' = tree_of m /\ crash_image (trace_of p) n cut = final_image p.
+Proof. exact writer_accepted_is_complete_xml. Qed.
+Print Assumptions C15_api_accepted_is_complete_xml.
